@@ -387,6 +387,21 @@ def property_oracles(ctx, T, codes, athlib, reqs, groups, vals, errs):
                                          H.show(r[j]), note='gender-spelling' if type(sp) is str else 'gender handed over as a str subclass',
                                          replay_py=rp)
     ctx.count(ng, 'gender_spelling_calls')
+    # ---- the year handed over as text, the way the wrappers' own declared defaults spell it ("2015", "2023"): the table of that year
+    nyt = 0
+    for g_ in ('m', 'f'):
+        for ev_ in ('100', '5K', 'HJ'):
+            for fn_, mk in (('wma_age_factor', lambda yy: athlib.wma_age_factor(g_, 50, ev_, year=yy)),
+                            ('wma_world_best', lambda yy: athlib.wma_world_best(g_, ev_, year=yy)),
+                            ('wma_age_grade', lambda yy: athlib.wma_age_grade(g_, 50, ev_, 12.5, year=yy))):
+                for yy in (2015, 2023):
+                    nyt += 1
+                    a_ = W.canon_py(lambda: mk(yy)); b_ = W.canon_py(lambda: mk(str(yy)))
+                    if a_ != b_:
+                        ctx.fail('athlib.' + fn_, [g_, ev_, 'year=%r' % str(yy)], 'the answer of year=%d: %s' % (yy, H.show(a_)), H.show(b_),
+                                 note='the year given as text selects another table',
+                                 replay_py='result = (athlib.wma_age_factor(%r, 50, %r, year=%d), athlib.wma_age_factor(%r, 50, %r, year=%r))' % (g_, ev_, yy, g_, ev_, str(yy)))
+    ctx.count(nyt, 'text_year_calls')
     # ---- the documented verbose switch only prints: the grade must be the quiet call's grade
     import io, contextlib
     nvb = 0
